@@ -18,6 +18,9 @@ def run(chk, replay=None, prop="C03"):
     # the user thread is descheduled inside reset() between starting one node and the next: outputs of nodes that already run reach connections whose
     # receiver is not started yet - none of them may be lost or re-timed
     variants["start_pause"] = dict(drive="reset_step", perturb=dict(kind="points", points=["start:node"], ms=60))
+    # a record capped at a few steps per node (set_record_settings(max_records=3)): what IS recorded is still an episode prefix - steps gap-free from 0,
+    # every recorded message consumed by a recorded step
+    if prop == "C03": variants["max_records3"] = dict(drive="reset_step", record=dict(al.FULLREC, max_records=3))
     count = [0]
     def gen(rnd, max_nodes=4):
         count[0] += 1
